@@ -19,6 +19,7 @@ type vector struct {
 	BNil    bool            `json:"b_nil"`
 	B       Meta            `json:"b"`
 	ImgFree bool            `json:"img_free"`
+	In      string          `json:"in"`
 }
 
 // Replay (S->C) feeds every generated bag to the real decoders and every generated Metadata pair to Merge and records
@@ -48,14 +49,33 @@ func Replay(in string, w *ev.Writer) error {
 			if err != nil {
 				return fmt.Errorf("vector %d: %w", v.Vec, err)
 			}
-			r["k"], r["src"], r["cls"], r["vec"], r["boc"], r["want"] = "Dec", "gen", v.Cls, v.Vec, v.Boc, v.Want
+			r["k"], r["src"], r["vec"], r["boc"] = "Dec", "gen", v.Vec, v.Boc
+			if len(v.Cls) > 0 {
+				r["cls"] = v.Cls
+			}
+			if len(v.Want) > 0 {
+				r["want"] = v.Want
+			}
+			w.Emit(r)
+		case "text":
+			r, err := DecodeText(v.Boc)
+			if err != nil {
+				return fmt.Errorf("vector %d: %w", v.Vec, err)
+			}
+			if v.In == "" {
+				v.In = "-"
+			}
+			r["k"], r["src"], r["vec"], r["boc"], r["in"] = "Text", "gen", v.Vec, v.Boc, v.In
 			w.Emit(r)
 		case "merge":
 			r, err := Merge(v.A, v.BNil, v.B)
 			if err != nil {
 				return fmt.Errorf("vector %d: %w", v.Vec, err)
 			}
-			r["k"], r["src"], r["vec"], r["want"], r["img_free"] = "Merge", "gen", v.Vec, v.Want, v.ImgFree
+			r["k"], r["src"], r["vec"], r["img_free"] = "Merge", "gen", v.Vec, v.ImgFree
+			if len(v.Want) > 0 {
+				r["want"] = v.Want
+			}
 			w.Emit(r)
 		default:
 			return fmt.Errorf("vector %d: unknown kind %q", v.Vec, v.T)
